@@ -972,15 +972,15 @@ struct Guard<'a, K: Hash + Eq, V> {
     guard: MutexGuard<'a, Option<HashMap<K, V>>>,
 }
 
-/// Simulation hook: forget the negotiated connection templates, the resolved entry points and the library
-/// handles, so that every simulated execution starts from "first use". Libraries are never unloaded: the
-/// handles are leaked, and loading the same path again returns the already mapped library.
+/// Simulation hook: forget the negotiated connection templates and the resolved entry points, and close the
+/// library handles, so that every simulated execution starts from "first use" (including a real first load of
+/// each plugin). Only to be called when no connection into a loaded library exists any more.
 #[cfg(savefile_verif_shuttle)]
 #[doc(hidden)]
 pub fn __verif_reset_caches() {
     *ENTRY_CACHE.lock().unwrap() = None;
     *ABI_CONNECTION_TEMPLATES.lock().unwrap() = None;
-    std::mem::forget(LIBRARY_CACHE.lock().unwrap().take());
+    drop(LIBRARY_CACHE.lock().unwrap().take());
 }
 
 impl<K: Hash + Eq, V> std::ops::Deref for Guard<'_, K, V> {
